@@ -124,6 +124,7 @@ TriggerConsistent ==
 \* ---------------------------------------------------------------- cpu lists, the way the code does it
 RECURSIVE InsertSorted(_, _)
 InsertSorted(seq, c) == IF seq = << >> THEN << c >>
+                        ELSE IF c > seq[Len(seq)] THEN Append(seq, c)      \* common case, cheap
                         ELSE IF c < Head(seq) THEN << c >> \o seq
                         ELSE IF c = Head(seq) THEN seq
                         ELSE << Head(seq) >> \o InsertSorted(Tail(seq), c)
